@@ -18,7 +18,7 @@ EXPLANATION = (
     "are unit steps and opposite directions cancel). Tables are folded by the analyser's literal evaluator. (R2) the "
     "index arithmetic of transition code on non-square boards (row-major stride of flat indices such as Minesweeper's mine "
     "lookup, wrap-around moduli, bounds tests) uses the extent of the right axis (axis-kind engine shared with C07). "
-    "(R3) LevelBasedForaging: eaten food is ignored by the movement and loading rules (frozen instance table, see rules/lbf_rules.py). Not decided: everything that needs executing a reference model (2048 merges, Tetris drop and line clearing, Sokoban "
+    "(R4) every reward alternative of every environment depends on the action taken (a reward computed from the incoming state alone describes the previous situation). (R3) LevelBasedForaging: eaten food is ignored by the movement and loading rules (frozen instance table, see rules/lbf_rules.py). Not decided: everything that needs executing a reference model (2048 merges, Tetris drop and line clearing, Sokoban "
     "pushes, JobShop clock, Minesweeper counts, ...).")
 
 MIN_PAIRINGS = 50
@@ -34,6 +34,26 @@ def check(tier: str) -> Result:
     # extent of the right axis -- the axis-kind engine of C07 (shared)
     from . import axis_rules
     n_axis = axis_rules.add_obligations(res, tree, "C09.R2", scope="all")
+    # ---- R4: the reward of a transition depends on the action taken (directly or through the new state)
+    from ..engine import analyse_env
+    from ..terms import contains
+    from .common import analyses, env_site, leaves, txt
+    n_rw = 0
+    for ea in analyses(tree):
+        vfg = ea.vfg
+        site, fn = env_site(ea, "step")
+        rws = []
+        for l, _ in leaves(ea.step_ts):
+            if l.kind == "construct":
+                rw = vfg.mk_attr(l, "reward")
+                for alt in (rw.args[0] if rw.kind == "phi" else (rw,)):
+                    if alt not in rws:
+                        rws.append(alt)
+        for i, rw in enumerate(rws):
+            ok = contains(rw, ea.action)
+            res.add("C09.R4", site, fn, f"the reward is a function of the transition (depends on the action) [{i}]", ok,
+                    "depends on the action" if ok else f"reward {txt(rw, 4, 120)} is computed from the incoming state alone: it rewards the previous situation, not the move")
+            n_rw += 1
     from . import lbf_rules
     n_lbf = lbf_rules.add_obligations(res, tree, "C09.R3", "transition")
     res.analysed = {"table_pairings": n, "axis_typed_sites": n_axis}
